@@ -528,6 +528,9 @@ fn spawn_worker(
         .spawn()
 }
 
+/// Confirmed watchdog firings per phase after which the remainder of the phase is not explored.
+const MAX_CONFIRMED_HANGS: u32 = 6;
+
 fn n_shards() -> u64 {
     std::env::var("VERIF_JOBS")
         .ok()
@@ -621,6 +624,10 @@ pub fn run_check(prop: &dyn Property, tier: Tier, seed: u64, env: &Env, replay: 
             pending = vec![(0, *idx, 0, vec![])];
         }
         let mut restarts = 0u64;
+        // hangs confirmed alone in this phase; beyond MAX_CONFIRMED_HANGS the rest of the phase is abandoned (a
+        // change that makes every other case hang must end in a verdict, not in hours of watchdog waits)
+        let mut confirmed_hangs = 0u32;
+        let mut abandoned = false;
         while !pending.is_empty() {
             let mut children = vec![];
             for (shard, from, attempt, skips) in pending.drain(..) {
@@ -660,6 +667,11 @@ pub fn run_check(prop: &dyn Property, tier: Tier, seed: u64, env: &Env, replay: 
                     harness_errors.push(format!("worker died ({kind}) without progress info: {tail:?}"));
                     continue;
                 };
+                if is_hang && confirmed_hangs >= MAX_CONFIRMED_HANGS {
+                    abandoned = true;
+                    let _ = merge_worker_file(&mut merged, &out);
+                    continue;
+                }
                 restarts += 1;
                 // confirm alone (3x budget for hangs)
                 let solo_out = scratch.join(format!("{}-solo-{}.json", phase.name, at));
@@ -687,6 +699,7 @@ pub fn run_check(prop: &dyn Property, tier: Tier, seed: u64, env: &Env, replay: 
                         merged.evaluations += 1;
                     }
                     ("hang", _) => {
+                        confirmed_hangs += 1;
                         if prop.hang_is_violation() {
                             merged.candidates.push(Candidate {
                                 signature: format!("hang:{}", phase.name),
@@ -720,6 +733,13 @@ pub fn run_check(prop: &dyn Property, tier: Tier, seed: u64, env: &Env, replay: 
                 }
             }
             pending = next;
+            if abandoned {
+                pending.clear();
+            }
+        }
+        if abandoned {
+            merged.inconclusive.insert(format!("phase-abandoned-after-{MAX_CONFIRMED_HANGS}-confirmed-hangs:{}", phase.name));
+            *merged.counters.entry(format!("inconclusive/phase-abandoned-after-confirmed-hangs:{}", phase.name)).or_insert(0) += 1;
         }
         phase_info.push(json!({
             "phase": phase.name, "cases": phase.cases, "profile": phase.profile.name(),
